@@ -34,6 +34,10 @@ CHECKS = {
             "The selected file set, its order, uniqueness and the error/no-files result are compared with a model of the documented rules on every case.", "3 C19"),
     "C20": ("bounded-exhaustive enumeration of documents x all 64 extension subsets; differential parse equality + front-matter shift oracle",
             "tokens under S must equal tokens under S restricted to the extensions whose syntax occurs; disabled extensions leave no trace; front matter = token + shifted parse of the rest.", "3 C20"),
+    "C16": ("bounded-exhaustive enumeration of documents x rule selections x seven entry points; differential equality; all log-level/stack-trace/log-file combinations",
+            "Failure tuples must be identical across file scan, stdin scan, scan_string, scan_path; fixed text identical across fix in place, fix_string, fix_path; diagnostics options change nothing else.", "3 C16"),
+    "C17": ("complete enumeration of the layer product (3^4 x 4 command-line states x rules x namings x file flavours) and of every configuration item x value class x layer x strictness; precedence model replayed against the implementation three ways",
+            "Every state of the documented precedence model is replayed against plugins list, plugins info and a probe scan.", "3 C17"),
 }
 NOT_YET = {}
 
